@@ -901,11 +901,13 @@ class Collocator:
             and flattened. If no common time period could be found, two None
             objects are returned.
         """
-        if max_interval is not None:
+        if max_interval is not None \
+                or start > datetime.min or end < datetime.max:
             timer = Timer().start()
             # We do not have to collocate everything, just the common time
             # period expanded by max_interval and limited by the global start
-            # and end parameter:
+            # and end parameter (the latter also applies to a purely spatial
+            # search, i.e. if max_interval is None):
             primary_period, secondary_period = self._get_common_time_period(
                 primary, secondary, max_interval, start, end
             )
@@ -948,23 +950,37 @@ class Collocator:
     @staticmethod
     def _get_common_time_period(
             primary, secondary, max_interval, start, end):
-        max_interval = pd.Timedelta(max_interval)
+        primary_start, primary_end, secondary_start, secondary_end = [
+            pd.Timestamp(times.item(0)).tz_localize(None)
+            for times in (
+                primary.time.values.min(), primary.time.values.max(),
+                secondary.time.values.min(), secondary.time.values.max(),
+            )
+        ]
 
-        # We want to select a common time window from both datasets,
-        # aligned to the primary's time coverage. Because xarray has a
-        # very annoying bug in time retrieving
-        # (https://github.com/pydata/xarray/issues/1240), this is a
-        # little bit cumbersome:
-        common_start = max(
-            start,
-            pd.Timestamp(primary.time.values.min().item(0)).tz_localize(None) - max_interval,
-            pd.Timestamp(secondary.time.values.min().item(0)).tz_localize(None) - max_interval
-        )
-        common_end = min(
-            end,
-            pd.Timestamp(primary.time.values.max().item(0)).tz_localize(None) + max_interval,
-            pd.Timestamp(secondary.time.values.max().item(0)).tz_localize(None) + max_interval
-        )
+        if max_interval is None:
+            # There is no temporal criterion (spatial search only), the data
+            # is only limited by the global start and end parameter:
+            common_start = max(start, min(primary_start, secondary_start))
+            common_end = min(end, max(primary_end, secondary_end))
+        else:
+            max_interval = pd.Timedelta(max_interval)
+
+            # We want to select a common time window from both datasets,
+            # aligned to the primary's time coverage. Because xarray has a
+            # very annoying bug in time retrieving
+            # (https://github.com/pydata/xarray/issues/1240), this is a
+            # little bit cumbersome:
+            common_start = max(
+                start,
+                primary_start - max_interval,
+                secondary_start - max_interval
+            )
+            common_end = min(
+                end,
+                primary_end + max_interval,
+                secondary_end + max_interval
+            )
 
         primary_period = primary.time.where(
             (primary.time.values >= np.datetime64(common_start))
